@@ -23,7 +23,7 @@ REQUIRED = {"C14": {"healthy-package": 200, "fault:duplicate": 30, "fault:defaul
                     "fault-raised-without-fms": 60, "fault-tolerated-with-fms": 60, "missing-package": 10, "disabled-class-skipped": 50,
                     "select:chooser-default": 50, "select:chooser-sim": 50, "select:auto-selector": 50, "select:auto-selector-unknown": 20,
                     "select:none": 30, "period-api": 200, "period-run": 60, "iteration-checked": 2000, "after-disable-silent": 100,
-                    "other-modes-silent-checked": 200, "chooser-options-checked": 200, "disable-after-run-silent": 30}}
+                    "other-modes-silent-checked": 200, "chooser-options-checked": 200, "disable-after-run-silent": 30, "disable-mid-run": 15}}
 ASSUMPTIONS = {"C14": ["a mode class re-exported by a second module is not generated (the statement does not say whether it is found twice)",
                        "with several DEFAULT modes and the FMS attached the preselected mode may be any of them",
                        "periodic() before the first start() and start() twice without disable() are not generated (unspecified)"]}
@@ -51,6 +51,8 @@ def gen_case(rng, uid):
                 c["mode_name"] = f"mode{mi}{ci}{uid}"
                 names_used.append(c["mode_name"])
                 c["disabled"] = rng.random() < 0.15
+                if c["disabled"] and rng.random() < 0.4:
+                    c["default"] = True       # DISABLED wins: such a class is neither offered nor a default
             classes.append(c)
         modules.append({"name": f"m{mi}", "classes": classes, "broken": None, "imports_helper_from": None})
     eligible = [(m, c) for m in modules for c in m["classes"] if c["mode_name"] and not c["disabled"]]
@@ -97,8 +99,10 @@ def gen_case(rng, uid):
                 ops.append(["periodic"])
             periods.append(ops)
         else:
-            periods.append({"iterations": rng.choice([1, 2, 5, 15]), "period_us": rng.choice([20000, 5000, 50000]),
-                            "end": rng.choice(["disabled", "teleop", "exit"]), "disable_after": rng.random() < 0.6})
+            its = rng.choice([1, 2, 5, 15])
+            periods.append({"iterations": its, "period_us": rng.choice([20000, 5000, 50000]),
+                            "end": rng.choice(["disabled", "teleop", "exit"]), "disable_after": rng.random() < 0.6,
+                            "disable_at": rng.randrange(0, its) if rng.random() < 0.25 else None})
     return {"uid": uid, "pkg": pkg, "missing": missing, "modules": modules, "fault": applied, "fms": fms, "select": sel,
             "sel_seed": rng.randrange(1 << 30), "style": style, "periods": periods}
 
@@ -413,9 +417,19 @@ def run_run_period(acc, case, selector, period, chosen, chosen_name, e):
     P = period["period_us"]
     simenv.set_ds(True, True, False, fms=case["fms"])
 
+    disable_at = period.get("disable_at")
+    marks = {}
+
+    def iter_fn():
+        iters.append(e.now())
+        if disable_at is not None and len(iters) - 1 == disable_at:
+            # disable() arrives in the middle of the period (e.g. called from the robot's own code)
+            selector.disable()
+            marks["log_len"] = len(sel_rt.LOG)
+
     def target():
         try:
-            selector.run(P / 1e6, iter_fn=lambda: iters.append(e.now()))
+            selector.run(P / 1e6, iter_fn=iter_fn)
         except BaseException as ex:  # noqa
             box["exc"] = ex
         finally:
@@ -455,7 +469,18 @@ def run_run_period(acc, case, selector, period, chosen, chosen_name, e):
     if len(iters) != n_seen:
         acc.violation("C14/iter_fn-count", f"run(): iter_fn ran {len(iters)} times in {n_seen} loop iterations", case, {})
         return "violation"
-    if not check_period_log(acc, case, list(sel_rt.LOG), chosen, chosen_name, n_seen, f"run() period ending by {period['end']}"):
+    if "log_len" in marks:
+        # after disable() in mid-period nothing more is delivered, also not a second on_disable when the period ends
+        acc.checks += 1
+        acc.ev("disable-mid-run")
+        late = sel_rt.LOG[marks["log_len"]:]
+        if late:
+            acc.violation("C14/callback-after-disable", f"run(): disable() was called in iteration {disable_at}; afterwards the mode still received {late[:5]}", case, {})
+            return "violation"
+        n_expected = disable_at + 1
+    else:
+        n_expected = n_seen
+    if not check_period_log(acc, case, list(sel_rt.LOG), chosen, chosen_name, n_expected, f"run() period ending by {period['end']}"):
         return "violation"
     if period.get("disable_after", True):
         # the documented disabledInit() hook: disable() after the period has already ended delivers nothing
